@@ -324,3 +324,35 @@ func GenUpdate(t *rapid.T, label string, ps *PlanSpec, tg Target) Update {
 	}
 	return u
 }
+
+// BigSpec builds, as a pure function of its plain arguments, a pristine plan of blocks × seqs × actions sequence actions
+// plus a plan-level pre-check group (2 actions) and a post-check group (1 action) on every block. It is the payload of
+// the C14 kill experiment (100-400 objects).
+func BigSpec(seed uint64, blocks, seqs, actions int) PlanSpec {
+	rnd := seed
+	next := func() uint64 { rnd = Mix64(rnd); return rnd }
+	txt := func(p string) string { return fmt.Sprintf("%s-%x", p, next()&0xffff) }
+	act := func(plugin int) ActionSpec {
+		a := ActionSpec{Name: txt("a"), Descr: txt("action"), Plugin: plugin, Timeout: timeouts[int(next()%uint64(len(timeouts)))], Retries: int(next() % 4)}
+		if !IsNilKind(plugin) {
+			a.Req = ValSpec{Text: txt("req"), Num: int64(next()), Flag: next()&1 == 0, List: []string{txt("l")}, DictNil: true}
+		}
+		return a
+	}
+	ps := PlanSpec{Seed: seed&^0xFF | 1, Name: txt("plan"), Descr: txt("big"), Group: int(next() % 3), Submit: 1, Meta: []byte(txt("meta"))}
+	ps.Checks[GPre] = &ChecksSpec{Actions: []ActionSpec{act(PlugValCheck), act(PlugNilCheck)}}
+	seqPlugs := []int{PlugValAction, PlugPtrAction, PlugNilAction}
+	for b := 0; b < blocks; b++ {
+		bs := BlockSpec{Name: txt("b"), Descr: txt("block"), Concurrency: 1 + int(next()%3), Tolerated: int(next()%3) - 1, Entrance: delays[int(next()%uint64(len(delays)))]}
+		bs.Checks[GPost] = &ChecksSpec{Delay: delays[int(next()%uint64(len(delays)))], Actions: []ActionSpec{act(PlugValCheck)}}
+		for s := 0; s < seqs; s++ {
+			ss := SeqSpec{Name: txt("s"), Descr: txt("seq"), HasKey: next()&3 == 0}
+			for a := 0; a < actions; a++ {
+				ss.Actions = append(ss.Actions, act(seqPlugs[int(next()%3)]))
+			}
+			bs.Seqs = append(bs.Seqs, ss)
+		}
+		ps.Blocks = append(ps.Blocks, bs)
+	}
+	return ps
+}
